@@ -628,7 +628,10 @@ impl<H: Hal, T: Transport> VirtIOSound<H, T> {
         }
 
         self.token_buf.remove(&token);
-        self.token_rsp.remove(&token);
+        let rsp = self.token_rsp.remove(&token).unwrap();
+        if rsp.status != CommandCode::SOk.into() {
+            return Err(Error::IoError);
+        }
         Ok(())
     }
 
